@@ -321,6 +321,11 @@ func newPlan(s *Selection, ts TierSel, srcs []*Src, families bool) *plan {
 				pl.want(src, Job{Src: text, Mask: m, Undef: undef}, "trace")
 			}
 		}
+		if s.has("trace.try") {
+			for _, m := range masks {
+				pl.want(src, Job{Src: text, Mask: m, Undef: undef}, "trace.try")
+			}
+		}
 		if s.has("conform") {
 			cm := ts.ConformMasks
 			if len(cm) == 0 {
@@ -601,6 +606,8 @@ func (pl *plan) generateCase(cx *Checker, progs map[int]*XProg, grp *caseGroup, 
 					obls = append(obls, cx.EvalLR(c)...)
 				case "trace":
 					obls = append(obls, cx.Trace(c)...)
+				case "trace.try":
+					obls = append(obls, cx.TraceTry(c)...)
 				case "conform":
 					obls = append(obls, cx.Conform(c, pc.job.Samples))
 				case "redump":
@@ -760,7 +767,7 @@ func revealArith(q string) string { return strings.Replace(q, opaqueArithDecls, 
 // relDomain: the domain each relation is stated under.
 var relDomain = map[string]Domain{
 	"eval=LR": {}, "U-if-value": {AllBound: true}, "U-if-AllOK": {AllBound: true}, "LR-if-value": {AllBound: true},
-	"trace": {AllBound: true}, "try-sound": {}, "try=eval": {AllAvail: true}, "try-mono": {}, "try-K": {NoNil: true},
+	"trace": {AllBound: true}, "trace.try": {AllBound: true, AllAvail: true}, "try-sound": {}, "try=eval": {AllAvail: true}, "try-mono": {}, "try-K": {NoNil: true},
 	"eval-twice": {}, "err-reached": {AllBound: true}, "eval=LR.bound": {AllBound: true},
 	"ev=noev": {}, "ev=noev.try": {}, "ev-events": {}, "redump": {AllBound: true}, "boundary": {AllBound: true},
 }
